@@ -85,7 +85,10 @@ class SourceRef:
         except OSError:
             return 0, 0
 
-        lines = src.splitlines()
+        # Only "\n" ends a line here (the file was read with universal newlines):
+        # str.splitlines() would also split at form feeds, "\x1c", "\x85", "\u2028", ...
+        # which Python does not count as line boundaries.
+        lines = src.split("\n")
         if lineno <= len(lines):
             offset = 0
             for i in range(lineno - 1):
